@@ -211,9 +211,23 @@ def o_invalid(spec):
 
 @st.composite
 def dist_pairs(draw, tier):
-    n = draw(st.integers(1, 4))
+    n = draw(st.one_of(st.integers(1, 4), st.integers(1, 4), st.sampled_from([8, 9, 10, 12, 16, 17])))
+    shared_tail = n >= 9 and draw(st.booleans())
+    base = draw(st.tuples(*[st.integers(0, 1)] * n)) if shared_tail else None
     def one():
-        keys = _keys(draw, n, 8, [0, 1])
+        if shared_tail:
+            # wide registers: outcomes that agree on the last eight bits and differ in the leading ones (labels 256 k apart)
+            keys = [base]
+            for _ in range(draw(st.integers(1, 5))):
+                v = list(base)
+                for pos in draw(st.lists(st.integers(0, n - 9), min_size=1, max_size=2)):
+                    v[pos] ^= 1
+                if draw(st.integers(0, 3)) == 0:
+                    v[n - 1] ^= 1
+                if tuple(v) not in keys:
+                    keys.append(tuple(v))
+        else:
+            keys = _keys(draw, n, 8, [0, 1])
         ws = [draw(st.one_of(st.floats(0.01, 1, allow_nan=False), st.sampled_from([0.0, 1.0, 1e-12]))) for _ in keys]
         if sum(ws) <= 0:
             ws[0] = 1.0
@@ -259,7 +273,8 @@ def o_dist(spec):
     require(abs(j1 - j2) <= 1e-12 * max(1, abs(j1)), lambda: f"symmetrised divergence not symmetric: {j1} vs {j2}")
     require(p.distribution_dict == sp and q.distribution_dict == sq, "a distance function modified its arguments")
     diff = set(k for k, v in sp.items() if v > 0) != set(k for k, v in sq.items() if v > 0)
-    return {"classes": (["different_supports"] if diff else []) + (["multi_kernel"] if isinstance(spec["sigma"], list) else ["single_kernel"]), "nontrivial": diff}
+    wide = spec["p"]["n"] >= 9
+    return {"classes": (["different_supports"] if diff else []) + (["multi_kernel"] if isinstance(spec["sigma"], list) else ["single_kernel"]) + (["width>=9"] if wide else []), "nontrivial": diff}
 
 
 @st.composite
@@ -316,6 +331,7 @@ SUBCHECKS = [
 ]
 SUBCHECKS[0].expected_classes = ["same_qubits_other_order", "merging", "permuted_qubits", "multi_digit_outcome", "normalize_off", "form:tuple", "form:str", "form:comma"]
 SUBCHECKS[3].expected_classes = ["single_subsystem_multi_digit", "multi_digit_outcome"]
+SUBCHECKS[2].expected_classes = ["different_supports", "multi_kernel", "single_kernel", "width>=9"]
 
 
 def _campaigns(tier):
